@@ -158,16 +158,153 @@ Section Proofs.
   Definition builtin (f : filter_cfg) : bool :=
     match f with AttributeFilter _ => false | _ => true end.
 
-  (* lat / lon, where present, are None or numbers: true of every decoded message (they are float fields of
-     every class that has them: [latlon_float_everywhere] below; the harness re-checks it on every message) *)
-  Definition coord_ok (m : pymsg) (name : string) : bool :=
-    match py_attr_lookup (pm_attrs m) name with Some (AOther _) => false | _ => true end.
-  Definition coords_numeric (m : pymsg) : bool := coord_ok m "lat" && coord_ok m "lon".
-
-  Lemma not_none_present m name :
-    py_is_not_none (py_getattr_d m name ANone) = present_not_none m name.
+  (* [coords_numeric], [attr_reads_ok], [attr_reads_total] (Prim/PyObj.v): the shape of a decoded message.  lat / lon,
+     where present, are stored fields holding None or a number: true of every decoded message (they are float
+     fields of every class that has them: [latlon_float_everywhere] below); reading any attribute returns a value
+     or raises TypeError / ValueError.  The harness evaluates the extracted predicates on every message it decodes. *)
+  Lemma lookup_In l name r : py_attr_lookup l name = Some r -> In (name, r) l.
   Proof.
-    unfold py_getattr_d, present_not_none. destruct (py_attr_lookup (pm_attrs m) name) as [[| |]|]; reflexivity.
+    induction l as [|[k v] l IH]; simpl; [discriminate|].
+    destruct (String.eqb name k) eqn:E.
+    - intros H. injection H as ->. apply String.eqb_eq in E. subst. left. reflexivity.
+    - intros H. right. apply IH. exact H.
+  Qed.
+
+  Lemma reads_total_lookup m name r :
+    attr_reads_total m = true -> py_attr_lookup (pm_attrs m) name = Some r -> exists v, r = Ok v.
+  Proof.
+    unfold attr_reads_total. rewrite forallb_forall. intros H Hl.
+    specialize (H _ (lookup_In _ _ _ Hl)). simpl in H. destruct r as [v|e]; [eexists; reflexivity | discriminate].
+  Qed.
+
+  (* getattr(msg, name, default), case by case *)
+  Lemma getattr_d_cases m name d :
+    py_getattr_d m name d =
+    match py_attr_lookup (pm_attrs m) name with
+    | None => Ok d
+    | Some (Ok v) => Ok v
+    | Some (Raise e) => if catches [HPy AttributeError] e then Ok d else Raise e
+    end.
+  Proof.
+    unfold py_getattr_d, py_getattr, try_except.
+    destruct (py_attr_lookup (pm_attrs m) name) as [[v|e]|]; reflexivity.
+  Qed.
+
+  Lemma reads_ok_lookup m name e :
+    attr_reads_ok m = true -> py_attr_lookup (pm_attrs m) name = Some (Raise e) ->
+    catches [HPy TypeError; HPy ValueError] e = true.
+  Proof.
+    unfold attr_reads_ok. rewrite forallb_forall. intros H Hl.
+    exact (H _ (lookup_In _ _ _ Hl)).
+  Qed.
+
+  (* _attr_or_none(msg, name), case by case *)
+  Lemma attr_or_none_cases m name :
+    attr_or_none m name =
+    match py_attr_lookup (pm_attrs m) name with
+    | None => Ok ANone
+    | Some (Ok v) => Ok v
+    | Some (Raise e) =>
+      if catches [HPy AttributeError] e then Ok ANone
+      else if catches [HPy TypeError; HPy ValueError] e then Ok ANone else Raise e
+    end.
+  Proof.
+    unfold attr_or_none. rewrite getattr_d_cases. unfold try_except.
+    destruct (py_attr_lookup (pm_attrs m) name) as [[v|e]|]; try reflexivity.
+    destruct (catches [HPy AttributeError] e); reflexivity.
+  Qed.
+
+  (* an attribute that is present and not None is read as its value *)
+  Lemma attr_or_none_present m name :
+    present_not_none m name = true -> exists v, attr_or_none m name = Ok v /\ py_is_not_none v = true.
+  Proof.
+    rewrite attr_or_none_cases. unfold present_not_none.
+    destruct (py_attr_lookup (pm_attrs m) name) as [[[|q|t]|e]|]; try discriminate; intros _; eexists; split; reflexivity.
+  Qed.
+
+  (* whenever all(...) of NoneFilter answers, the answer is "every listed attribute is present and not None"
+     -- for EVERY message, whatever its getters raise *)
+  Lemma none_all_sound m attrs b : none_all m attrs = Ok b -> forallb (present_not_none m) attrs = b.
+  Proof.
+    revert b. induction attrs as [|a r IH]; intros b; simpl; [intros H; injection H as <-; reflexivity|].
+    rewrite attr_or_none_cases. unfold present_not_none, bind.
+    destruct (py_attr_lookup (pm_attrs m) a) as [[[|q|t]|e]|].
+    - simpl. intros H; injection H as <-; reflexivity.
+    - simpl. apply IH.
+    - simpl. apply IH.
+    - destruct (catches [HPy AttributeError] e); [simpl; intros H; injection H as <-; reflexivity|].
+      destruct (catches [HPy TypeError; HPy ValueError] e); simpl; [intros H; injection H as <-; reflexivity | discriminate].
+    - simpl. intros H; injection H as <-; reflexivity.
+  Qed.
+
+  (* ... and it does answer when every read returns a value or raises TypeError / ValueError *)
+  Lemma none_all_total m attrs : attr_reads_ok m = true -> exists b, none_all m attrs = Ok b.
+  Proof.
+    intros Ht. induction attrs as [|a r IH]; simpl; [eexists; reflexivity|].
+    rewrite attr_or_none_cases. unfold bind.
+    destruct (py_attr_lookup (pm_attrs m) a) as [[v|e]|] eqn:El.
+    - destruct (py_is_not_none v); [exact IH | eexists; reflexivity].
+    - rewrite (reads_ok_lookup m a e Ht El). destruct (catches [HPy AttributeError] e); simpl; eexists; reflexivity.
+    - simpl. eexists; reflexivity.
+  Qed.
+
+  (* a listed computed attribute that cannot be evaluated for the message: whenever the filter answers, the answer
+     is "not passed" *)
+  Lemma none_unevaluable_not_passed m attrs name e b :
+    In name attrs -> py_attr_lookup (pm_attrs m) name = Some (Raise e) ->
+    filter_keep dist (NoneFilter attrs) m = Ok b -> b = false.
+  Proof.
+    intros Hin Hl Hk. simpl in Hk. unfold none_body in Hk. apply none_all_sound in Hk. subst b.
+    apply not_true_is_false. intros Hall. rewrite forallb_forall in Hall. specialize (Hall name Hin).
+    unfold present_not_none in Hall. rewrite Hl in Hall. discriminate.
+  Qed.
+
+  (* all() stops at the first attribute that is absent or None: what comes after it is not read *)
+  Lemma none_all_short_circuit m pre a post :
+    forallb (present_not_none m) pre = true ->
+    (py_attr_lookup (pm_attrs m) a = None \/ py_attr_lookup (pm_attrs m) a = Some (Ok ANone)) ->
+    none_all m (pre ++ a :: post) = Ok false.
+  Proof.
+    intros Hpre Ha. induction pre as [|p pre IH]; simpl in *.
+    - rewrite attr_or_none_cases. destruct Ha as [-> | ->]; reflexivity.
+    - apply andb_true_iff in Hpre. destruct Hpre as [Hp Hpre].
+      destruct (attr_or_none_present m p Hp) as [v [-> Hv]]. simpl. rewrite Hv. apply IH. exact Hpre.
+  Qed.
+
+  (* what the repair does NOT absorb: a getter raising anything but AttributeError / TypeError / ValueError, reached
+     after attributes that are present and not None, still kills the generator.  No decoded message has such a
+     getter ([attr_reads_ok], checked by the harness on every decoded message); synthetic objects tie this to the code. *)
+  Lemma none_other_exception_escapes m pre name post e :
+    forallb (present_not_none m) pre = true ->
+    py_attr_lookup (pm_attrs m) name = Some (Raise e) ->
+    catches [HPy AttributeError] e = false -> catches [HPy TypeError; HPy ValueError] e = false ->
+    filter_keep dist (NoneFilter (pre ++ name :: post)) m = Raise e.
+  Proof.
+    intros Hpre Hl H1 H2. simpl. unfold none_body. induction pre as [|p pre IH]; simpl in Hpre |- *.
+    - rewrite attr_or_none_cases, Hl, H1, H2. reflexivity.
+    - apply andb_true_iff in Hpre. destruct Hpre as [Hp Hpre].
+      destruct (attr_or_none_present m p Hp) as [v [-> Hv]]. simpl. rewrite Hv. apply IH. exact Hpre.
+  Qed.
+
+  (* the unrepaired all(getattr(msg, attr, None) is not None ...) answered only when no getter raised *)
+  Lemma none_all_unrepaired_total m attrs : attr_reads_total m = true -> exists b, none_all_unrepaired m attrs = Ok b.
+  Proof.
+    intros Ht. induction attrs as [|a r IH]; simpl; [eexists; reflexivity|].
+    rewrite getattr_d_cases. unfold bind.
+    destruct (py_attr_lookup (pm_attrs m) a) as [[v|e]|] eqn:El.
+    - destruct (py_is_not_none v); [exact IH | eexists; reflexivity].
+    - destruct (reads_total_lookup m a _ Ht El) as [v Hv]. discriminate.
+    - simpl. eexists; reflexivity.
+  Qed.
+
+  (* the geographic filters' test for "the message reports a position" *)
+  Lemma has_lat_lon_numeric m :
+    coords_numeric m = true ->
+    has_lat_lon m = Ok (match reported_position m with Some _ => true | None => false end).
+  Proof.
+    unfold coords_numeric, py_coord_ok, has_lat_lon, reported_position, bind. rewrite !getattr_d_cases.
+    destruct (py_attr_lookup (pm_attrs m) "lat") as [[[|lat|t]|e]|];
+      destruct (py_attr_lookup (pm_attrs m) "lon") as [[[|lon|t']|e']|]; simpl; intros H; try discriminate; reflexivity.
   Qed.
 
   Lemma grid_chain lat lon a b c d :
@@ -178,54 +315,82 @@ Section Proofs.
     destruct (ratio_leb a lat), (ratio_leb lat c), (ratio_leb b lon); reflexivity.
   Qed.
 
+  Lemma reported_position_getattr m lat lon :
+    reported_position m = Some (lat, lon) -> py_getattr m "lat" = Ok (ANum lat) /\ py_getattr m "lon" = Ok (ANum lon).
+  Proof.
+    unfold reported_position, py_getattr.
+    destruct (py_attr_lookup (pm_attrs m) "lat") as [[[|lat'|t]|e]|]; try discriminate;
+      destruct (py_attr_lookup (pm_attrs m) "lon") as [[[|lon'|t']|e']|]; try discriminate.
+    intros H. injection H as -> ->. split; reflexivity.
+  Qed.
+
+  Lemma reported_position_numeric m p : reported_position m = Some p -> coords_numeric m = true.
+  Proof.
+    unfold coords_numeric, py_coord_ok, reported_position.
+    destruct (py_attr_lookup (pm_attrs m) "lat") as [[[| |]|]|]; try discriminate;
+      destruct (py_attr_lookup (pm_attrs m) "lon") as [[[| |]|]|]; try discriminate; reflexivity.
+  Qed.
+
+  (* the two geographic bodies on a message of the decoded shape *)
+  Lemma distance_body_numeric ref d m :
+    coords_numeric m = true ->
+    distance_body dist ref d m
+    = Ok (match reported_position m with None => true | Some p => ratio_ltb (dist ref p) d end).
+  Proof.
+    intros Hc. unfold distance_body. rewrite (has_lat_lon_numeric m Hc).
+    destruct (reported_position m) as [[lat lon]|] eqn:Hp; simpl; [|reflexivity].
+    destruct (reported_position_getattr m lat lon Hp) as [-> ->]. simpl.
+    rewrite ratio_geb_ltb. destruct (ratio_ltb (dist ref (lat, lon)) d); reflexivity.
+  Qed.
+
+  Lemma grid_body_numeric a b c d m :
+    coords_numeric m = true ->
+    grid_body a b c d m
+    = Ok (match reported_position m with
+          | None => true
+          | Some (lat, lon) => ratio_leb a lat && ratio_leb lat c && ratio_leb b lon && ratio_leb lon d
+          end).
+  Proof.
+    intros Hc. unfold grid_body. rewrite (has_lat_lon_numeric m Hc).
+    destruct (reported_position m) as [[lat lon]|] eqn:Hp; simpl; [|reflexivity].
+    destruct (reported_position_getattr m lat lon Hp) as [-> ->]. cbn -[is_in_grid].
+    rewrite grid_chain. simpl.
+    destruct (ratio_leb a lat && ratio_leb lat c && ratio_leb b lon && ratio_leb lon d); reflexivity.
+  Qed.
+
   (* whenever a filter answers, the answer is the criterion's.  (coords_numeric is needed: with a number for lat
      and a str for lon, is_in_grid answers False without looking at lon when lat is outside -- no exception, but
      not the criterion's answer either.  No decoded message has that shape.) *)
   Lemma keep_sound f m b :
     coords_numeric m = true -> filter_keep dist f m = Ok b -> crit_satisfies dist (criterion_of f) m = b.
   Proof.
-    unfold coords_numeric, coord_ok.
     destruct f as [ff|attrs|types|ref d|a b0 c d]; simpl; intros Hc.
     - unfold attribute_body. intros ->. destruct b; reflexivity.
-    - unfold none_body. intros H. injection H as <-.
-      apply forallb_pointwise. intros x _. symmetry. apply not_none_present.
+    - unfold none_body. apply none_all_sound.
     - unfold message_type_body. intros H.
       replace (existsb (fun t => pm_type m =? t) types) with (existsb (Z.eqb (pm_type m)) types) by reflexivity.
       destruct (existsb (Z.eqb (pm_type m)) types); simpl in H; congruence.
-    - unfold distance_body, reported_position, py_getattr_d, py_getattr, haversine, py_as_real, bind.
-      destruct (py_attr_lookup (pm_attrs m) "lat") as [[|lat|t]|];
-        destruct (py_attr_lookup (pm_attrs m) "lon") as [[|lon|t']|]; simpl in *; try congruence.
-      rewrite ratio_geb_ltb. destruct (ratio_ltb (dist ref (lat, lon)) d); simpl; congruence.
-    - unfold grid_body, reported_position, py_getattr_d, py_getattr.
-      destruct (py_attr_lookup (pm_attrs m) "lat") as [[|lat|t]|];
-        destruct (py_attr_lookup (pm_attrs m) "lon") as [[|lon|t']|]; cbn -[is_in_grid] in *; try congruence.
-      rewrite grid_chain. unfold bind.
-      destruct (ratio_leb a lat && ratio_leb lat c && ratio_leb b0 lon && ratio_leb lon d); simpl; congruence.
+    - rewrite (distance_body_numeric ref d m Hc). intros H. injection H as <-. reflexivity.
+    - rewrite (grid_body_numeric a b0 c d m Hc). intros H. injection H as <-.
+      destruct (reported_position m) as [[lat lon]|]; reflexivity.
   Qed.
 
   (* "no decodable message makes a filter raise": the five classes minus the user function are total *)
-  Theorem no_raise f m : builtin f = true -> coords_numeric m = true -> exists b, filter_keep dist f m = Ok b.
+  Theorem no_raise f m :
+    builtin f = true -> coords_numeric m = true -> attr_reads_ok m = true -> exists b, filter_keep dist f m = Ok b.
   Proof.
-    unfold coords_numeric, coord_ok.
-    destruct f as [ff|attrs|types|ref d|a b0 c d]; simpl; intros Hb Hc; try discriminate.
-    - eexists; reflexivity.
+    destruct f as [ff|attrs|types|ref d|a b0 c d]; simpl; intros Hb Hc Hr; try discriminate.
+    - apply none_all_total. exact Hr.
     - unfold message_type_body. destruct (negb _); eexists; reflexivity.
-    - unfold distance_body, py_getattr_d, py_getattr, haversine, py_as_real, bind.
-      destruct (py_attr_lookup (pm_attrs m) "lat") as [[|lat|t]|];
-        destruct (py_attr_lookup (pm_attrs m) "lon") as [[|lon|t']|]; simpl in *; try discriminate;
-        try (eexists; reflexivity).
-      destruct (ratio_geb _ _); eexists; reflexivity.
-    - unfold grid_body, py_getattr_d, py_getattr.
-      destruct (py_attr_lookup (pm_attrs m) "lat") as [[|lat|t]|];
-        destruct (py_attr_lookup (pm_attrs m) "lon") as [[|lon|t']|]; cbn -[is_in_grid] in *; try discriminate;
-        try (eexists; reflexivity).
-      rewrite grid_chain. unfold bind. destruct (negb _); eexists; reflexivity.
+    - rewrite (distance_body_numeric ref d m Hc). eexists; reflexivity.
+    - rewrite (grid_body_numeric a b0 c d m Hc). eexists; reflexivity.
   Qed.
 
   Corollary keep_builtin f m :
-    builtin f = true -> coords_numeric m = true -> filter_keep dist f m = Ok (crit_satisfies dist (criterion_of f) m).
+    builtin f = true -> coords_numeric m = true -> attr_reads_ok m = true ->
+    filter_keep dist f m = Ok (crit_satisfies dist (criterion_of f) m).
   Proof.
-    intros Hb Hc. destruct (no_raise f m Hb Hc) as [b Hk]. rewrite Hk. f_equal. symmetry.
+    intros Hb Hc Hr. destruct (no_raise f m Hb Hc Hr) as [b Hk]. rewrite Hk. f_equal. symmetry.
     apply keep_sound; assumption.
   Qed.
 
@@ -235,20 +400,16 @@ Section Proofs.
     (forall ref d, filter_keep dist (DistanceFilter ref d) m = Ok true) /\
     (forall a b c d, filter_keep dist (GridFilter a b c d) m = Ok true).
   Proof.
-    intros Hp Hc. split; intros.
-    - rewrite keep_builtin by (auto; reflexivity). simpl. rewrite Hp. reflexivity.
-    - rewrite keep_builtin by (auto; reflexivity). simpl. rewrite Hp. reflexivity.
+    intros Hp Hc. split; intros; simpl.
+    - rewrite (distance_body_numeric _ _ m Hc), Hp. reflexivity.
+    - rewrite (grid_body_numeric _ _ _ _ m Hc), Hp. reflexivity.
   Qed.
 
   Theorem distance_strict m lat lon ref d :
     reported_position m = Some (lat, lon) ->
     filter_keep dist (DistanceFilter ref d) m = Ok (ratio_ltb (dist ref (lat, lon)) d).
   Proof.
-    intros Hp. assert (Hc : coords_numeric m = true).
-    { unfold coords_numeric, coord_ok. unfold reported_position in Hp.
-      destruct (py_attr_lookup (pm_attrs m) "lat") as [[| |]|]; try discriminate;
-        destruct (py_attr_lookup (pm_attrs m) "lon") as [[| |]|]; try discriminate; reflexivity. }
-    rewrite keep_builtin by (auto; reflexivity). simpl. rewrite Hp. reflexivity.
+    intros Hp. simpl. rewrite (distance_body_numeric _ _ m (reported_position_numeric m _ Hp)), Hp. reflexivity.
   Qed.
 
   Theorem grid_closed m lat lon a b c d :
@@ -256,11 +417,7 @@ Section Proofs.
     filter_keep dist (GridFilter a b c d) m
     = Ok (ratio_leb a lat && ratio_leb lat c && ratio_leb b lon && ratio_leb lon d).
   Proof.
-    intros Hp. assert (Hc : coords_numeric m = true).
-    { unfold coords_numeric, coord_ok. unfold reported_position in Hp.
-      destruct (py_attr_lookup (pm_attrs m) "lat") as [[| |]|]; try discriminate;
-        destruct (py_attr_lookup (pm_attrs m) "lon") as [[| |]|]; try discriminate; reflexivity. }
-    rewrite keep_builtin by (auto; reflexivity). simpl. rewrite Hp. reflexivity.
+    intros Hp. simpl. rewrite (grid_body_numeric _ _ _ _ m (reported_position_numeric m _ Hp)), Hp. reflexivity.
   Qed.
 
   (* ---- the chain is the conjunction filter --------------------------------------------------------------- *)
@@ -300,18 +457,20 @@ Section Proofs.
     forall m, In m xs -> forall ff, In (AttributeFilter ff) fs -> exists b, ff m = Ok b.
 
   Lemma user_total_chain_total fs xs :
-    forallb coords_numeric xs = true -> user_functions_total fs xs -> chain_total fs xs.
+    forallb coords_numeric xs = true -> forallb attr_reads_ok xs = true ->
+    user_functions_total fs xs -> chain_total fs xs.
   Proof.
-    intros Hc Hu m Hm f Hf. rewrite forallb_forall in Hc.
-    destruct f as [ff| | | |] eqn:E; try (apply no_raise; [reflexivity | apply Hc; exact Hm]).
+    intros Hc Hr Hu m Hm f Hf. rewrite forallb_forall in Hc, Hr.
+    destruct f as [ff| | | |] eqn:E; try (apply no_raise; [reflexivity | apply Hc; exact Hm | apply Hr; exact Hm]).
     simpl. unfold attribute_body. apply (Hu m Hm ff Hf).
   Qed.
 
   (* chains of built-in filters over decoded messages: no side condition left *)
   Lemma builtin_chain_total fs xs :
-    forallb builtin fs = true -> forallb coords_numeric xs = true -> chain_total fs xs.
+    forallb builtin fs = true -> forallb coords_numeric xs = true -> forallb attr_reads_ok xs = true ->
+    chain_total fs xs.
   Proof.
-    intros Hb Hc m Hm f Hf. rewrite forallb_forall in Hb, Hc. apply no_raise; auto.
+    intros Hb Hc Hr m Hm f Hf. rewrite forallb_forall in Hb, Hc, Hr. apply no_raise; auto.
   Qed.
 
   Theorem chain_perm {S} (fs fs' : list filter_cfg) (decode : S -> M pymsg) (stream : list S) (xs : list pymsg) :
@@ -345,6 +504,7 @@ Section Proofs.
     filters <> [] -> Permutation filters filters' ->
     map decode stream = map Ok xs ->
     forallb coords_numeric xs = true ->
+    forallb attr_reads_ok xs = true ->
     user_functions_total filters xs ->
     let out := conj_filter dist (map criterion_of filters) xs in
     (* no filter raises *)
@@ -358,7 +518,7 @@ Section Proofs.
     (* whatever the order of the filters *)
     filter_chain_run dist filters' decode stream = filter_chain_run dist filters decode stream.
   Proof.
-    intros Hne Hp Hdec Hc Hu out.
+    intros Hne Hp Hdec Hc Hr Hu out.
     assert (Htot : chain_total filters xs) by (apply user_total_chain_total; assumption).
     split; [exact Htot|]. split; [apply chain_is_filter; assumption|].
     split; [apply filter_subseq|]. split; [apply filter_exactly|]. split.
@@ -371,8 +531,8 @@ Section Proofs.
 
   (* the unchanged code: both geographic filters raise on a position report without coordinates *)
   Definition truncated_report : pymsg :=
-    mkPyMsg 1 [("msg_type"%string, ANum (ratio_of_Z 1)); ("mmsi"%string, ANum (ratio_of_Z 366053209));
-             ("lon"%string, ANone); ("lat"%string, ANone)].
+    mkPyMsg 1 [("msg_type"%string, Ok (ANum (ratio_of_Z 1))); ("mmsi"%string, Ok (ANum (ratio_of_Z 366053209)));
+             ("lon"%string, Ok ANone); ("lat"%string, Ok ANone)].
 
   Lemma unrepaired_raises ref d a b c e :
     distance_body_unrepaired dist ref d truncated_report = Raise (Py TypeError) /\
@@ -380,6 +540,25 @@ Section Proofs.
     filter_keep dist (DistanceFilter ref d) truncated_report = Ok true /\
     filter_keep dist (GridFilter a b c e) truncated_report = Ok true.
   Proof. repeat split. Qed.
+
+  (* the unchanged NoneFilter: a type 18 report cut before its radio field ([filter_truncated_type18], Model/Filter.v)
+     made it raise TypeError for each of the three computed attributes -- unless an earlier listed attribute was None
+     (all() stops there); the repaired one does not pass the message.  The message has the decoded shape, and it is
+     NOT of the shape under which the unrepaired filter was total. *)
+  Lemma nonefilter_unrepaired_raises :
+    let m := filter_truncated_type18 in
+    none_body_unrepaired ["is_sotdma"%string] m = Raise (Py TypeError) /\
+    none_body_unrepaired ["is_itdma"%string] m = Raise (Py TypeError) /\
+    none_body_unrepaired ["communication_state_raw"%string] m = Raise (Py TypeError) /\
+    none_body_unrepaired ["mmsi"%string; "is_sotdma"%string] m = Raise (Py TypeError) /\
+    none_body_unrepaired ["course"%string; "is_sotdma"%string] m = Ok false /\
+    filter_keep dist (NoneFilter ["is_sotdma"%string]) m = Ok false /\
+    filter_keep dist (NoneFilter ["is_itdma"%string]) m = Ok false /\
+    filter_keep dist (NoneFilter ["communication_state_raw"%string]) m = Ok false /\
+    filter_keep dist (NoneFilter ["mmsi"%string; "is_sotdma"%string]) m = Ok false /\
+    filter_keep dist (NoneFilter ["mmsi"%string; "MAX_COMM_STATE_VALUE"%string]) m = Ok true /\
+    coords_numeric m = true /\ attr_reads_ok m = true /\ attr_reads_total m = false.
+  Proof. vm_compute. repeat split. Qed.
 End Proofs.
 
 (* ---- the attribute sets of the message classes (regenerated tables) --------------------------------------- *)
